@@ -376,6 +376,19 @@ func c10Run(c *engine.Ctx) {
 			rec(nil)
 		}
 	}
+	// presentations of a that need BOTH stages of the comparison (letter case of the path and a trailing slash / another scheme), and
+	// embedded presentations that are not copies of one another (another struct, type, scheme, an extra property): addressees and
+	// the blocked object are matched by identity, not by structure
+	c10Small(c, []c10Entry{
+		{"a:iri", 0, func() ap.Item { return ap.IRI(c10A) }},
+		{"a:CASE+slash", 0, func() ap.Item { return ap.IRI("https://EXAMPLE.com/A/") }},
+		{"a:*Object-https", 0, func() ap.Item {
+			return &ap.Object{ID: "https://example.com/a", Type: ap.NoteType, Name: ap.NaturalLanguageValues{{Ref: "-", Value: ap.Content("extra")}}}
+		}},
+		{"b:iri", 1, func() ap.Item { return ap.IRI(c10B) }},
+		{"a:*Actor", 0, func() ap.Item { return &ap.Actor{ID: c10A, Type: ap.PersonType} }},
+		{"a:*Object-bare", 0, func() ap.Item { return &ap.Object{ID: c10A} }},
+	}, 3, true)
 	c10Named[900], c10Named[901] = "http://example.org", "http://example.net/d"
 	root := []c10Entry{
 		{"r:none", 900, func() ap.Item { return ap.IRI("http://example.org") }},
